@@ -784,7 +784,7 @@ func (c *control) dirProc(colon, at bool, params []any) {
 		var args slip.List
 		if c.argPos < len(c.args) {
 			var ok bool
-			if args, ok = c.args[c.argPos].(slip.List); !ok {
+			if args, ok = c.args[c.argPos].(slip.List); !ok && c.args[c.argPos] != nil { // nil is the empty list
 				slip.ErrorPanic(c.scope, 0, "recursive processing directive expected an argument list at %d of %q", c.pos, c.str)
 			}
 		}
